@@ -17,6 +17,7 @@ TECHNIQUE = (
     "enumeration of all merge histories (subset of full cites x resolved-name choice x 1..3 filter passes) "
     "through the real extract_reference_citations / filter_citations"
 )
+TECHNIQUE += "; " + 'also: the real filter_citations on every layout of a valid result plus added reference citations (narrow seam), remove_ambiguous runs, documents beyond 64 KiB; a subset of shards again under python -O'
 RULE = (
     "documents = all concatenations of <=k fragments of A3 (A0 + parallel, short-form parallel, string cites, "
     "names reused as references). merge history = (document, subset S of its full case citations |S|<=2, "
